@@ -80,6 +80,7 @@ EX = [
     ('exc_multiline_msg', ">>> raise ValueError(T({k}, 'l1\\nl2'))"),
     # IGNORE_EXCEPTION_DETAIL with an exception class that lives two modules deep
     ('ied_nested', ">>> import json\n>>> json.loads(T({k}, '{{')) # doctest: +IGNORE_EXCEPTION_DETAIL"),
+    ('skipd_nowant', ">>> T({k}, 'zz') # doctest: +SKIP"),
     ('exc_note', ">>> e{k} = ValueError(T({k}, 'm'))\n>>> e{k}.add_note('a note')\n>>> raise e{k}"),
     ('exc_syntax', ">>> compile(T({k}, '1 +'), 's', 'eval')"),
 ]
